@@ -266,8 +266,8 @@ func (u *universe) prioFacts(d *txDef) ([]int64, int64) {
 	vals := make([]int64, len(d.ins))
 	overhead := 0
 	for i, in := range d.ins {
-		if v, _, ok := u.outInfo(in.txid, in.idx); ok {
-			vals[i] = v
+		if v, _, ok := u.outInfo(in.txid, in.idx); ok && v > 0 {
+			vals[i] = v // an insane (negative) parent output can never be spent: amount irrelevant
 		}
 		n := len(d.tx.MsgTx().TxIn[i].SignatureScript)
 		if n > 110 {
